@@ -285,9 +285,16 @@ def run_operator_case(case, ctx):
         ctx.count("out_cases")
     elif case["form"] == "accumulate":
         axis = case["axis"]
-        pairs = [("ufunc.accumulate", lambda: numpy.add.accumulate(a, axis=axis)),
-                 ("numpoly", lambda: numpoly.cumsum(a, axis=axis)),
-                 ("method", lambda: a.cumsum(axis=axis))]
+        if axis is None:
+            # the default: running sums over the elements in row-major order, whatever the
+            # memory layout of the operand
+            pairs = [("method", lambda: a.cumsum()), ("numpoly", lambda: numpoly.cumsum(a)),
+                     ("numpy", lambda: numpy.cumsum(a)),
+                     ("ufunc.accumulate", lambda: numpy.add.accumulate(a.flatten(), axis=0))]
+        else:
+            pairs = [("ufunc.accumulate", lambda: numpy.add.accumulate(a, axis=axis)),
+                     ("numpoly", lambda: numpoly.cumsum(a, axis=axis)),
+                     ("method", lambda: a.cumsum(axis=axis))]
     results = [(label, outcome(func)) for label, func in pairs]
     base_label, base = results[0]
     for label, res in results[1:]:
@@ -428,7 +435,9 @@ def run_operators(spec, ctx):
             case["op"] = "add"
             shape = C.nd_shape(g, mindim=1)
             case["a"] = g.poly(shape=shape, kind=kind)
-            case["axis"] = rng.choice(list(range(len(shape))))
+            case["axis"] = rng.choice(list(range(len(shape))) + [None, None])
+            if case["axis"] is None and len(shape) >= 2 and rng.random() < 0.5:
+                case["a"]["view"] = "T"
         if i < 2:
             ctx.sample(case)
         ctx.run_case(case, lambda c: run_operator_case(c, ctx))
@@ -478,9 +487,39 @@ def templates(numpoly):
     ]
 
 
+# numpy's own aliases, plus the documented design that the division operators' ufuncs are served
+# by polynomial division (property statement)
+REGISTRY_ALIASES = {("max", "amax"), ("min", "amin"), ("round", "around"), ("abs", "absolute"),
+                    ("divide", "true_divide"), ("mod", "remainder"), ("divmod", "poly_divmod"),
+                    ("divide", "poly_divide"), ("true_divide", "poly_divide"),
+                    ("remainder", "poly_remainder"), ("mod", "poly_remainder"),
+                    ("amax", "max"), ("amin", "min"), ("around", "round")}
+
+
+def registry_audit(ctx, numpoly):
+    """Every registered numpy callable is served by the implementation of that very function."""
+    for label, table in (("FUNCTION_COLLECTION", numpoly.FUNCTION_COLLECTION),
+                         ("UFUNC_COLLECTION", numpoly.UFUNC_COLLECTION)):
+        for key, impl in list(table.items()):
+            kname = getattr(key, "__name__", str(key))
+            iname = getattr(impl, "__name__", str(impl))
+            ctx.count("registry_entries")
+            ctx.evaluated(("registry", label, kname, iname), True)
+            same = kname == iname or (kname, iname) in REGISTRY_ALIASES or \
+                getattr(numpy, iname, None) is key
+            if not same:
+                ctx.violation({"op": kname, "form": "registry", "failure": "wrong_implementation",
+                               "implementation": iname},
+                              f"{label}: numpy.{kname} is served by the implementation of "
+                              f"'{iname}', a different function", {"op": kname, "kind": "registry"})
+
+
 def run_negative(spec, ctx):
     import numpoly
 
+    if ctx.begin({"op": "registry", "kind": "registry"}):
+        registry_audit(ctx, numpoly)
+        ctx.end()
     spy = Spy()
     ladder = templates(numpoly)
     try:
